@@ -45,9 +45,11 @@ def coqproject():
         sh("coq_makefile -f _CoqProject -o Makefile", cwd=COQ)
 
 
-def make_all(jobs=16, timeout=3000):
-    """make -k everything; returns (ok, list of failed .vo, log)"""
-    rc, out = sh(f"timeout {timeout} make -k -j{jobs}", cwd=COQ, timeout=timeout + 60)
+def make_all(jobs=16, timeout=3000, targets=None):
+    """make -k the given .vo targets (None = everything); returns (ok, list of failed .vo, log).
+    Every coqc runs under its own timeout so one runaway file cannot stall a check."""
+    tg = " ".join(targets) if targets else ""
+    rc, out = sh(f"timeout {timeout} make -k -j{jobs} COQC='timeout 1500 coqc' {tg}", cwd=COQ, timeout=timeout + 60)
     failed = re.findall(r"\*\*\* \[Makefile[^:]*:\d+: (theories/[^\]]+\.vo)\]", out)
     return rc == 0, sorted(set(failed)), out
 
@@ -147,7 +149,15 @@ def full_build(prop=None, tags=None):
     with Lock():
         rc, genout, untrans = regen()
         coqproject()
-        ok, failed, log = make_all()
+        if prop:
+            want = [f"theories/Props/{prop}.vo"]
+            for tag in (tags if tags is not None else extract_tags()):
+                cand = [p for p in glob.glob(os.path.join(COQ, "theories/Extract/Extract*.v"))
+                        if os.path.basename(p)[len("Extract"):-2].lower() == tag]
+                want += [os.path.relpath(p, COQ) + "o" for p in cand]
+            ok, failed, log = make_all(targets=want)
+        else:
+            ok, failed, log = make_all()
         dok, dlog = True, ""
         for tag in (tags if tags is not None else extract_tags()):
             o, l = build_driver(tag)
